@@ -460,3 +460,94 @@ func init() {
 			return obs
 		}})
 }
+
+func init() {
+	register(&Rule{ID: "JSON.raw-text-writes", Floor: 3,
+		Doc: "in the JSON encoder the text of a lisp string or symbol (an LVal's Str, or a string parameter that received it) is written to the output only inside encodeString, the one function that escapes — the single exception is the symbol encoder writing the constants true/false under a comparison with them; object keys, like values, therefore never appear unescaped (raw control bytes, invalid UTF-8, U+2028/9)",
+		Run: func(c *Ctx) []Obligation {
+			p := c.Pkg(jsonPkg)
+			strFld := c.LookupField("lisp.LVal.Str")
+			if p == nil || strFld == nil {
+				return []Obligation{anchorMissing("JSON.raw-text-writes", "libjson / LVal.Str")}
+			}
+			var obs []Obligation
+			for _, u := range c.Funcs(func(pp string) bool { return rel(pp) == jsonPkg }) {
+				sig := u.Obj.Type().(*types.Signature)
+				if sig.Recv() == nil || !strings.HasSuffix(sig.Recv().Type().String(), "libjson.encoder") {
+					continue
+				}
+				info := u.Pkg.TypesInfo
+				fc := c.cfgOf(u, nil)
+				ord := &ordinal{}
+				isText := func(e ast.Expr) bool {
+					hit := false
+					ast.Inspect(e, func(n ast.Node) bool {
+						if se, ok := n.(*ast.SelectorExpr); ok && FieldOfSelector(info, se) == strFld {
+							hit = true
+						}
+						if id, ok := n.(*ast.Ident); ok {
+							if v, ok := info.Uses[id].(*types.Var); ok && !v.IsField() {
+								if bt, ok := v.Type().Underlying().(*types.Basic); ok && bt.Kind() == types.String {
+									for _, pr := range paramObjs(u) {
+										if pr == types.Object(v) {
+											hit = true
+										}
+									}
+								}
+							}
+						}
+						return !hit
+					})
+					return hit
+				}
+				for _, b := range fc.G.Blocks {
+					if !fc.Live(b) {
+						continue
+					}
+					for _, n := range b.Nodes {
+						for _, ce := range callsIn(n, false) {
+							se, ok := ast.Unparen(ce.Fun).(*ast.SelectorExpr)
+							if !ok || (se.Sel.Name != "WriteString" && se.Sel.Name != "Write") || len(ce.Args) != 1 {
+								continue
+							}
+							if tv, ok := info.Types[se.X]; !ok || !strings.Contains(tv.Type.String(), "bytes.Buffer") {
+								continue
+							}
+							if tv, ok := info.Types[ce.Args[0]]; ok && tv.Value != nil {
+								continue // a constant
+							}
+							if !isText(ce.Args[0]) {
+								continue
+							}
+							construct := ord.next("writes lisp text")
+							switch {
+							case u.Obj.Name() == "encodeString":
+								obs = append(obs, mkOb(c, "JSON.raw-text-writes", u, construct, ce, Proved, "inside encodeString: the pieces written are the runs it has checked need no escape", false))
+							default:
+								// allowed only under an edge entailing the text equals the true/false constants
+								cls := func(e ast.Expr) (string, bool) {
+									be, ok := ast.Unparen(e).(*ast.BinaryExpr)
+									if !ok || (be.Op != token.EQL && be.Op != token.NEQ) || FieldOfSelector(info, be.X) != strFld {
+										return "", false
+									}
+									if o, ok := identObjOrSel(info, be.Y).(*types.Const); ok && (o.Name() == "TrueSymbol" || o.Name() == "FalseSymbol") {
+										return "is" + o.Name(), be.Op == token.NEQ
+									}
+									return "", false
+								}
+								cut := fc.edgesEntailing(cls, func(v map[string]bool) bool {
+									return (v["$has:isTrueSymbol"] && v["isTrueSymbol"]) || (v["$has:isFalseSymbol"] && v["isFalseSymbol"])
+								})
+								if len(cut) > 0 && !fc.reachableAvoiding(b, cut) {
+									obs = append(obs, mkOb(c, "JSON.raw-text-writes", u, construct, ce, Proved, "the text is one of the constants true/false on every path", true))
+								} else {
+									obs = append(obs, mkOb(c, "JSON.raw-text-writes", u, construct, ce, Violated, "`"+types.ExprString(ce)+"` writes lisp text to the document without going through encodeString: a key or value holding a control byte, a quote, invalid UTF-8 or U+2028/9 is emitted raw", true))
+								}
+							}
+						}
+					}
+				}
+			}
+			return obs
+		}})
+}
